@@ -101,7 +101,7 @@ func (h *Hist) genConfigs() {
 			o.AWS.LaunchTemplateID = "lt-1"
 			o.AWS.LaunchTemplateVersion = r.pick("1", "$Latest")
 			o.AWS.Lifecycle = r.pick("", "on-demand", "spot")
-			o.AWS.FleetInstanceReadyTimeout = r.pick("2s", "3s")
+			o.AWS.FleetInstanceReadyTimeout = r.pick("2s", "3s", "2s", "3s", "") // omitted: the documented default of one minute
 			if r.chance(40) {
 				o.AWS.InstanceTypeOverrides = []string{"m5.large", "c5.large"}[:r.rng(1, 2)]
 			}
@@ -303,6 +303,7 @@ func (h *Hist) setLoad(gi int, pct int, jitter int) {
 		if h.r.chance(4) {
 			p.OwnerKinds = []string{h.r.pick("ReplicaSet", "Job", "Node", "StatefulSet")}
 		}
+		p.Terminating = h.r.chance(6)
 		if o.Name != "default" {
 			if h.r.chance(80) {
 				p.NodeSelector = map[string]string{"grp": o.LabelValue}
@@ -322,6 +323,19 @@ func (h *Hist) setLoad(gi int, pct int, jitter int) {
 					terms = []v1.NodeSelectorTerm{{MatchExpressions: []v1.NodeSelectorRequirement{in(other), in(o.LabelValue)}}}
 				default:
 					terms = []v1.NodeSelectorTerm{{MatchExpressions: []v1.NodeSelectorRequirement{in(other, o.LabelValue)}}}
+				}
+				if h.r.chance(25) {
+					// an expression on the group's key with an operator the filter does not understand (only `In` selects),
+					// in front of the one that selects: inside the same term, or as a term of its own
+					odd := v1.NodeSelectorRequirement{Key: "grp", Operator: []v1.NodeSelectorOperator{v1.NodeSelectorOpNotIn, v1.NodeSelectorOpExists, v1.NodeSelectorOpDoesNotExist, v1.NodeSelectorOpGt}[h.r.intn(4)], Values: []string{"zz"}}
+					if odd.Operator == v1.NodeSelectorOpExists || odd.Operator == v1.NodeSelectorOpDoesNotExist {
+						odd.Values = nil
+					}
+					if h.r.chance(50) {
+						terms[0].MatchExpressions = append([]v1.NodeSelectorRequirement{odd}, terms[0].MatchExpressions...)
+					} else {
+						terms = append([]v1.NodeSelectorTerm{{MatchExpressions: []v1.NodeSelectorRequirement{odd}}}, terms...)
+					}
 				}
 				p.Affinity = &v1.Affinity{NodeAffinity: &v1.NodeAffinity{RequiredDuringSchedulingIgnoredDuringExecution: &v1.NodeSelector{NodeSelectorTerms: terms}}}
 				p.NodeSelector = map[string]string{}
@@ -916,6 +930,10 @@ func (h *Hist) randomEvent() string {
 		}
 	case 20:
 		if n := pickNode(); n != nil {
+			if r.chance(35) {
+				n.Terminating = !n.Terminating // somebody asked for the Node object's deletion; a finalizer holds it
+				return "node-deletion-pending"
+			}
 			n.Labels["other"] = r.pick("x", "y")
 			return "relabel"
 		}
@@ -978,6 +996,9 @@ func (h *Hist) runHistory(scans int) (bool, string) {
 			if h.r.chance(10) {
 				faults[0] = true // the refresh itself (costs 5 s of real sleep per retry)
 			}
+		}
+		if focus == "up" && h.r.chance(12) {
+			faults[h.r.pickI(3, 5)] = true // the cloud request that follows one or two untaints is refused
 		}
 		if h.nextFaultAt > 0 {
 			faults[h.nextFaultAt] = true
